@@ -1,4 +1,4 @@
-import Bardolph.Model.Loader
+import Bardolph.Model.Wf
 import Bardolph.Driver.Wire
 /-!
 Driver handlers for the VM / loader model.
@@ -349,10 +349,54 @@ def loadCmd (args : List String) : String :=
   toString img.code.size ++ " ;" ++ " ".intercalate jumps ++ " ;" ++
     " ".intercalate (img.routines.map fun (n, a) => escOut n ++ "=" ++ toString a)
 
+/-- `vm.wf <instr>…` : load the compiled program with the model loader, run the proved checker -/
+def wfCmd (args : List String) : String :=
+  let prog := args.map fun a => decodeInstr (decode a)
+  if Wf.wfImage (Loader.load prog) then "wf" else "not-wf"
+
+/-- `vm.wfimage <k> <name=addr>×k <instr>…` : the IMPLEMENTATION's loaded image (code and routine
+table as its own loader produced them) given to the proved checker -/
+def wfImageCmd (args : List String) : String :=
+  match args with
+  | k :: rest =>
+    match k.toNat? with
+    | some k =>
+      let rts := (rest.take k).filterMap fun a =>
+        match (decode a).splitOn "=" with
+        | [n, addr] => addr.toNat?.map fun x => (String.ofList (unescape n.toList), x)
+        | _ => none
+      if rts.length != k then "bad-routines"
+      else
+        let code := (rest.drop k).map fun a => decodeInstr (decode a)
+        if Wf.wfImage { code := code.toArray, routines := rts } then "wf" else "not-wf"
+    | none => "bad-args"
+  | _ => "bad-args"
+
+/-- `vm.image <instr>…` : the model loader's image, one token per instruction, for comparison
+with the implementation's loader: `name=addr,… ; OPCODE/offset …` (jumps with their offsets) -/
+def imageCmd (args : List String) : String :=
+  let prog := args.map fun a => decodeInstr (decode a)
+  let img := Loader.load prog
+  let tag (i : Instr) : String :=
+    match i with
+    | .jump _ off => "JUMP/" ++ toString off
+    | .routine n => "ROUTINE/" ++ escOut n
+    | .end_ n => "END/" ++ escOut n
+    | .jsr n => "JSR/" ++ escOut n
+    | .endMatrix => "END/matrix"
+    | .loop => "LOOP" | .endLoop => "END_LOOP" | .ctx => "CTX" | .endCtx => "END_CTX"
+    | .ret => "RETURN"
+    | _ => "."
+  ",".intercalate (img.routines.map fun (n, a) => escOut n ++ "=" ++ toString a) ++ " ;" ++
+    " ".intercalate (img.code.toList.map tag)
+
 def handle (cmd : String) (args : List String) : Option String :=
   match cmd with
   | "vm.run" => some (runCmd args)
   | "vm.load" => some (loadCmd args)
+  | "vm.wf" => some (wfCmd args)
+  | "vm.wfimage" => some (wfImageCmd args)
+  | "vm.image" => some (imageCmd args)
   | _ => none
 
 end Bardolph.Driver.VmD
